@@ -30,6 +30,7 @@ def specs():
             (f'{cls}.clear', cls, 'clear', []),
             (f'{cls}.empty', cls, 'empty', []),
         ]
+    out += [(f'{cls}.extend', cls, 'extend', ['streams']) for cls in ('Inlets', 'Outlets')]
     out += [('Stream.disconnect_sink', 'StreamLike', 'disconnect_sink', []),
             ('Stream.disconnect_source', 'StreamLike', 'disconnect_source', []),
             ('Stream.disconnect', 'StreamLike', 'disconnect', [])]
@@ -38,6 +39,8 @@ def specs():
 
 def _verify(item):
     name, cls, meth, params = item
+    if meth == 'extend':
+        return _verify_extend(item)
     import z3
     import thermosteam  # noqa
     nw = sys.modules['thermosteam.network']
@@ -237,6 +240,237 @@ def _verify(item):
         out['error'] = f'{type(e).__name__}: {e}\n{traceback.format_exc()[-1200:]}'
     out['wall_s'] = time.time() - t0
     return out
+
+
+# ----------------------------------------------------------------------------- extend: a loop with an inductive invariant
+
+def _verify_extend(item):
+    """`StreamSequence.extend(streams)`: the loop over the caller's sequence is verified with an inductive invariant
+    (engine.vcg.heap.Exec.for_loop_invariant): entry, preservation by one arbitrary iteration on an arbitrary heap, exit.
+    Nothing is unrolled; the heap, the port list and the sequence have any size."""
+    name, cls, meth, params = item
+    import z3
+    import thermosteam  # noqa
+    nw = sys.modules['thermosteam.network']
+    from engine.vcg import heap as H
+    from engine.vcg import heap_native as HN
+    t0 = time.time()
+    out = {'name': name, 'obligations': [], 'paths': 0, 'unsupported': None, 'functions': [], 'solver_s': 0.0}
+    try:
+        classes = {'Inlets': nw.AbstractInlets, 'Outlets': nw.AbstractOutlets, 'StreamLike': nw.AbstractStream}
+        sel = z3.Select
+        h0 = H.Heap('0')
+        S = z3.Int('self')
+        n = z3.Int('n_streams'); arr = z3.Const('streams', z3.ArraySort(z3.IntSort(), z3.IntSort()))
+        m, m2 = z3.Ints('m m2')
+        side = 'sink' if cls == 'Inlets' else 'source'
+        other_side = 'source' if cls == 'Inlets' else 'sink'
+        KIND = H.INLETS if cls == 'Inlets' else H.OUTLETS
+        owner = sel(getattr(h0, side), S)
+        L0 = sel(h0.llen, S)
+        a = lambda i: sel(arr, i)
+
+        def fresh_elem(h, i):      # what the property's quantifier demands of a stream that is about to enter the list
+            e = a(i)
+            return z3.And(sel(h.alloc, e), e != 0, z3.Or(sel(h.kind, e) == H.STREAM, sel(h.kind, e) == H.MISSING),
+                          sel(getattr(h, side), e) == 0,
+                          z3.Implies(sel(h.kind, e) == H.MISSING, sel(getattr(h, other_side), e) == 0))
+
+        pre = [sel(h0.alloc, S), S != 0, sel(h0.kind, S) == KIND, n >= 0,
+               z3.ForAll([m], z3.Implies(z3.And(m >= 0, m < n), fresh_elem(h0, m))),
+               z3.ForAll([m, m2], z3.Implies(z3.And(m >= 0, m < n, m2 >= 0, m2 < n, m != m2), a(m) != a(m2)))]
+        posIn = z3.Function('posIn', z3.IntSort(), z3.IntSort()); posOut = z3.Function('posOut', z3.IntSort(), z3.IntSort())
+        hyps = [c for _, c in H.WF(h0, pos=(posIn, posOut))]
+
+        def mk_cands(pI, pO, h):
+            ext = [z3.IntVal(0), sel(h.llen, S)]
+            def cands(s_, inlet_side):
+                w_ = (pI if inlet_side else pO)(s_)
+                return [w_, w_ + 1, w_ - 1] + ext
+            return cands
+
+        def inv_parts(j, h):
+            """Conjuncts of the loop invariant besides WF(h) (shared by the hypothesis and the goal form)."""
+            return [
+                ('the port list is the same allocated, variable-size list of the same unit',
+                 z3.And(sel(h.alloc, S), sel(h.kind, S) == KIND, sel(getattr(h, side), S) == owner, z3.Not(sel(h.fixed, S)))),
+                ('the list has grown by the streams handled so far', sel(h.llen, S) == L0 + j),
+                ('streams handled so far are listed at the end, in order, docked at the owning unit',
+                 z3.ForAll([m], z3.Implies(z3.And(m >= 0, m < j), z3.And(h.el(S, L0 + m) == a(m), sel(getattr(h, side), a(m)) == owner)))),
+                ('streams listed before the call keep their positions',
+                 z3.ForAll([m], z3.Implies(z3.And(m >= 0, m < L0), h.el(S, m) == h0.el(S, m)))),
+                ('streams still to come are untouched (allocated, undocked on this side)',
+                 z3.ForAll([m], z3.Implies(z3.And(m >= j, m < n), fresh_elem(h, m)))),
+            ]
+
+        class LC:
+            @staticmethod
+            def hyp(j, h):
+                k_ = next(H._cnt)
+                pI = z3.Function(f'posIn!{k_}', z3.IntSort(), z3.IntSort()); pO = z3.Function(f'posOut!{k_}', z3.IntSort(), z3.IntSort())
+                forms = [c for _, c in H.WF(h, pos=(pI, pO))] + [c for _, c in inv_parts(j, h)]
+                LC.heaps.append((h, j))
+                return forms, mk_cands(pI, pO, h)
+            @staticmethod
+            def goal(j, h, cands):
+                return [(f'WF: {nm}', c) for nm, c in H.WF(h, cands=cands)] + inv_parts(j, h)
+            heaps = []
+
+        ex = H.Exec(classes, nw.__dict__)
+        ex.side_obligations = []
+        ex.loop_contract = LC
+        ex.cands_now = mk_cands(posIn, posOut, h0)
+        t_e = time.time()
+        outs = ex.run(cls, meth, H.Ref(S, cls), [H.ExtSeq(n, arr)], h0, pre, hyps)
+        out['t_explore'] = round(time.time() - t_e, 1)
+        out['paths'] = len(outs)
+        out['functions'] = sorted(ex.functions_read)
+        failing = []
+
+        def _prove(hyp, goal):
+            verdict = 'unknown'
+            for cfg in ('ematching', 'default'):
+                s_ = z3.Solver()
+                if cfg == 'ematching':
+                    s_.set('auto_config', False); s_.set('smt.mbqi', False); s_.set('timeout', max(5000, TIMEOUT_MS // 3))
+                else:
+                    s_.set('timeout', TIMEOUT_MS)
+                for x in hyp: s_.add(x)
+                s_.add(z3.Not(goal))
+                t1 = time.time(); r = s_.check(); out['solver_s'] += time.time() - t1
+                if r == z3.unsat: return 'unsat'
+                if r == z3.sat and cfg == 'default': verdict = 'sat'
+            return verdict
+
+        def prove(nm, pc, goal):
+            t1 = time.time()
+            v_ = _prove(hyps + pc, goal)
+            out.setdefault('slowest', []).append((round(time.time() - t1, 2), nm))
+            if v_ != 'unsat': failing.append((nm, list(pc), goal))
+            out['obligations'].append((nm, v_))
+
+        n_ret = n_iter = 0
+        for n_out, (kind, pc, h1, v) in enumerate(outs):
+            if kind == 'abort':
+                prove(f'path {n_out}: cut path ({v}) is infeasible', pc, z3.BoolVal(False)); continue
+            if kind == 'raise':
+                if v == 'RuntimeError':
+                    prove(f'path {n_out}: RuntimeError only when the contract allows it', pc, sel(h0.fixed, S))
+                else:
+                    prove(f'path {n_out}: {v} is never raised', pc, z3.BoolVal(False))
+                continue
+            if kind == 'iteration':
+                n_iter += 1; continue          # its VCs are the side obligations 'loop invariant preserved ...'
+            n_ret += 1
+            cands = ex.out_cands[n_out]
+            hx = h1
+            for cname, c in H.WF(hx, cands=cands):
+                prove(f'path {n_out}: WF preserved: {cname}', pc, c)
+            # membership with the witness position spelled out (old length + m): implies the existential of `member`
+            prove(f'path {n_out}: every stream of the sequence is listed in the port list afterwards', pc,
+                  z3.ForAll([m], z3.Implies(z3.And(m >= 0, m < n),
+                                            z3.And(L0 + m >= 0, L0 + m < sel(hx.llen, S), hx.el(S, L0 + m) == a(m)))))
+            prove(f"path {n_out}: every stream of the sequence has the owning unit as its {side}", pc,
+                  z3.ForAll([m], z3.Implies(z3.And(m >= 0, m < n), sel(getattr(hx, side), a(m)) == owner)))
+            prove(f'path {n_out}: streams listed before are still listed at their positions', pc,
+                  z3.ForAll([m], z3.Implies(z3.And(m >= 0, m < L0), hx.el(S, m) == h0.el(S, m))))
+        for oname, pc, cond in ex.side_obligations:
+            prove(f'loop: {oname}', pc, cond)
+        if n_ret == 0: out['obligations'].append(('vacuity: a normal return is reachable', 'sat'))
+        if n_iter == 0: out['obligations'].append(('vacuity: the loop body is reachable', 'sat'))
+        # canary: a wrong invariant conjunct must be refuted (the preservation VCs are not vacuous)
+        it_out = next(((pc, h1) for kind, pc, h1, v in outs if kind == 'iteration'), None)
+        if it_out is not None:
+            pc, h1 = it_out
+            if _prove(hyps + pc, sel(h1.llen, S) == L0) == 'unsat':
+                out['obligations'].append(('vacuity: the wrong invariant "the list never grows" is refuted', 'sat'))
+        out['t_prove'] = round(out['solver_s'], 1)
+
+        # ---- finite-domain models -> real objects: cross-check on sampled pre-states, replay of failing obligations
+        NDOM = 8
+        t_s = time.time()
+        plain_wf0 = [c for _, c in H.WF(h0)]
+        small = [n <= 3] + [z3.And(a(i) >= 0, a(i) < NDOM) for i in range(3)]
+
+        def native(objs, self_id, stream_ids):
+            real = HN.build(objs)
+            uni0 = HN.reachable(list(real.values()))
+            res = {'wf_pre': HN.wf_native(uni0), 'exception': None}
+            try:
+                real[self_id].extend([real[i] for i in stream_ids])
+            except Exception as e:
+                res['exception'] = type(e).__name__
+            res['wf_post'] = HN.wf_native(HN.reachable(list(real.values())))
+            eff = []
+            if res['exception'] is None:
+                own = getattr(real[self_id], '_' + side)
+                for i in stream_ids:
+                    if not any(real[i] is t for t in real[self_id]._streams): eff.append('every stream of the sequence is listed in the port list afterwards')
+                    if getattr(real[i], '_' + side) is not own: eff.append(f'every stream of the sequence has the owning unit as its {side}')
+            res['effects_failed'] = sorted(set(eff))
+            return res
+
+        out['cross_checks'] = []
+        all_proved = all(v == 'unsat' for _, v in out['obligations'])
+        variants = [[n == 2, z3.Not(sel(h0.fixed, S))], [n == 1, L0 >= 1, z3.Not(sel(h0.fixed, S))], [n >= 1, sel(h0.fixed, S)], [n == 0]]
+        if os.environ.get('VERIF_TIER', 'quick') != 'thorough': variants = variants[:2]
+        for extra_ in variants:
+            try:
+                mdl = HN.find_model(plain_wf0 + pre + small + extra_, [S], h0, N=NDOM, timeout_ms=max(20000, TIMEOUT_MS // 2))
+                if mdl is None: continue
+                objs = HN.extract(mdl, h0, NDOM)
+                ids = [HN._val(mdl, a(i)) for i in range(HN._val(mdl, n))]
+                nat = native(objs, HN._val(mdl, S), ids)
+                out['cross_checks'].append({'inputs': {'self': HN._val(mdl, S), 'streams': ids}, 'objects': len(objs), **nat})
+                ok_exc = nat['exception'] in (None, 'RuntimeError')
+                if not nat['wf_pre'] and (nat['wf_post'] or nat['effects_failed'] or not ok_exc):
+                    if all_proved:
+                        out['obligations'].append(('cross-check: native run of a sampled well-formed pre-state keeps WF', 'sat'))
+                    out['replays'] = out.get('replays', []) + [{'clause': 'cross-check', 'heap': objs, 'inputs': {'self': HN._val(mdl, S), 'streams': ids}, 'native': nat}]
+                    break
+            except Exception as e:
+                out['cross_checks'].append({'error': f'{type(e).__name__}: {e}'})
+        # a failing loop obligation is replayed from the heap its hypothesis speaks about: (h, j) satisfies Inv(j), so the real
+        # extend called with the rest of the sequence streams[j:] starts inside the precondition
+        for nm, pc, goal in failing:
+            try:
+                hj = [(h, j) for h, j in LC.heaps if any(_mentions(f, h.kind) for f in pc)]
+                h, j = hj[-1] if hj else (h0, z3.IntVal(0))
+                mdl = HN.find_model(hyps + pc + small + [z3.Not(goal)], [S], h, N=NDOM, timeout_ms=max(20000, TIMEOUT_MS // 2))
+                if mdl is None:
+                    out.setdefault('replay_errors', []).append(f'{nm}: no finite model within the domain/timeout'); continue
+                objs = HN.extract(mdl, h, NDOM)
+                jv = HN._val(mdl, j) if not z3.is_int_value(j) else j.as_long()
+                ids = [HN._val(mdl, a(i)) for i in range(jv, HN._val(mdl, n))]
+                nat = native(objs, HN._val(mdl, S), ids)
+                broke = bool(nat['wf_post'] or nat['effects_failed'] or nat['exception'] not in (None, 'RuntimeError'))
+                if not nat['wf_pre'] and broke:
+                    out['replays'] = out.get('replays', []) + [{'clause': nm, 'heap': objs, 'inputs': {'self': HN._val(mdl, S), 'streams': ids}, 'native': nat}]
+                else:
+                    out.setdefault('replay_errors', []).append(f'{nm}: finite model found but the native run did not break WF: {nat}')
+            except Exception as e:
+                out.setdefault('replay_errors', []).append(f'{nm}: {type(e).__name__}: {e}')
+        out['t_sample'] = round(time.time() - t_s, 1)
+        if n_ret and not any('inputs' in c for c in out['cross_checks']):
+            out['obligations'].append(('vacuity: WF and the preconditions have a (finite) model', 'sat'))
+    except H.Unsupported as e:
+        out['unsupported'] = str(e)
+    except Exception as e:
+        out['error'] = f'{type(e).__name__}: {e}\n{traceback.format_exc()[-1200:]}'
+    out['wall_s'] = time.time() - t0
+    return out
+
+
+def _mentions(f, const):
+    import z3
+    seen = set()
+    def walk(t):
+        if t.get_id() in seen: return False
+        seen.add(t.get_id())
+        if t.eq(const): return True
+        if z3.is_quantifier(t): return walk(t.body())
+        return any(walk(c) for c in t.children()) if z3.is_app(t) else False
+    return walk(f)
 
 
 def native_run(cls, meth, params, objs, vals):
